@@ -43,7 +43,7 @@ func c02(c *core.Ctx, r *core.Report) {
 	// ---- R4: every call-graph cycle through the creator contains the accessor
 	c02Cycle(c, r, l)
 	// ---- R5 = C04.A2
-	for _, T := range c.Implementors(c.Iface("container", "SingletonComponentRegistry")) {
+	for _, T := range implementorsBehindFacades(c, "container", "SingletonComponentRegistry") {
 		sub := core.NewReport("C04", c.Tier, 0)
 		c04Explore(c, sub, T)
 		for _, o := range sub.Obls {
@@ -165,6 +165,14 @@ func onlyConstantOf(c *core.Ctx, fa *ssa.FieldAddr) (string, bool) {
 
 func exposureAtom(c *core.Ctx, ro *core.Roles, cond ssa.Value) string {
 	cond = core.Norm(cond)
+	// a guard on the routine's own parameter being there at all (the definition handed in is never nil)
+	if b, ok := cond.(*ssa.BinOp); ok && (b.Op == token.EQL || b.Op == token.NEQ) {
+		for _, pr := range [][2]ssa.Value{{b.X, b.Y}, {b.Y, b.X}} {
+			if _, isP := core.Norm(pr[0]).(*ssa.Parameter); isP && core.IsNilConst(pr[1]) {
+				return "parameter compared with nil"
+			}
+		}
+	}
 	if u, ok := cond.(*ssa.UnOp); ok && u.Op == token.NOT {
 		// a negation of something built from allowed atoms is built from allowed atoms (which combination of them
 		// exposes is decided by the exposer table's expose-iff-condition row)
